@@ -432,6 +432,15 @@ func init() {
 								out = append(out, mkInst("vhC04Copy", map[string]interface{}{"dtype": dt, "shape": sh, "layout": lay, "lazyT": lt, "op": op}, "dtype", "shape", "layout", "lazyT", "op"))
 							}
 						}
+						// (1,n) step-sliced row vectors: the transposing copies and conversions (open finding KF-C03-stridedvecT)
+						if tier == "quick" && si == 0 && li == 0 && lt == 0 {
+							for _, op := range []string{"safet", "apitranspose", "clone"} {
+								for _, l2 := range []int{0, 1} {
+									out = append(out, mkInst("vhC04Copy", map[string]interface{}{"dtype": "float64", "shape": []int{1, 3}, "layout": "SS", "lazyT": l2, "op": op}, "dtype", "shape", "layout", "lazyT", "op"))
+								}
+							}
+							out = append(out, mkInst("vhC04Copy", map[string]interface{}{"dtype": "float64", "shape": []int{1, 3}, "layout": "SS", "lazyT": 1, "op": "tomat64"}, "dtype", "shape", "layout", "lazyT", "op"))
+						}
 						// conversion to a gonum matrix (a copy in safe mode): matrices of the real numeric dtypes, every layout
 						if len(sh) == 2 || (len(sh) == 3 && li == 0 && lt == 0) {
 							for di, dt := range []string{"float64", "float32", "int8", "int16", "int"} {
@@ -1511,6 +1520,13 @@ func init() {
 								}
 							}
 						}
+					}
+				}
+				if len(sh) == 2 {
+					// two column-major operands into a fresh / reuse result (open finding KF-C16-cmp-colmajor) and unsafe (correct)
+					for vi, v := range []string{"bool", "same", "reuse-bool", "unsafe"} {
+						out = append(out, mkInst("vhC11Cmp", map[string]interface{}{"dtype": []string{"float64", "int"}[vi%2], "op": cmpOps[vi%len(cmpOps)], "form": "TT", "shape": sh, "la": "F", "lb": "F", "api": "func", "variant": v, "ld": "C"},
+							"dtype", "op", "shape", "la", "lb", "variant", "ld"))
 					}
 				}
 				for oi, op := range cmpOps {
